@@ -311,6 +311,12 @@ func (o *c05Oracle) Finish(st *stage.Stage, res *check.Result) {
 				// request + 1) is not what the next cycle asks for, so "the same value as before" only holds
 				// while the fan reports rotation
 				spinning := !fs.NeverStop || (pre.After.RpmAvg >= 1 && n.Before != nil && n.Before.RpmAvg >= 1 && n.After.RpmAvg >= 1)
+				if pre.Before == nil || pre.Before.Raises != pre.After.Raises || n.After.Raises != pre.After.Raises {
+					// the cycle before the interference (or the one after it) was itself a raise cycle: its request is
+					// "old request + 1", not the value the curve and the new floor dictate from then on (a rolling
+					// RPM average that hovers around 1 passes for rotation otherwise)
+					spinning = false
+				}
 				if directNoLimit(&fs) && n.After.CurveVal == pre.After.CurveVal && n.Before != nil && spinning {
 					res.Probe("exact-restore-clause")
 					if n.After.Pwm != pre.After.Pwm {
